@@ -5477,6 +5477,13 @@ class Arc(Curve):
 
         rx_sq = rx * rx
         ry_sq = ry * ry
+        if rx_sq == 0 or ry_sq == 0:
+            # A radius whose square underflows cannot be told from a zero radius: a straight line (SVG F.6.2)
+            self.sweep = 0
+            self.prx = Point(start)
+            self.pry = Point(start)
+            self.center = Point(start)
+            return
 
         # Correct out of range radii
         radius_check = (x1prim_sq / rx_sq) + (y1prim_sq / ry_sq)
